@@ -46,6 +46,7 @@ def run(ctx) -> None:
     # the transforms are built on the well-array helpers: all 26 row letters, columns 1..C, index (r, c)
     from . import c08
 
+    ctx.guard("C15.slice-zero", slice_zero)
     ctx.reuse("C15.helpers", c08.id_templates)
     ctx.reuse("C15.helpers", c08.grid_construction)
 
@@ -424,6 +425,16 @@ def randomizer(ctx) -> None:
         uses = [s for s in own_walk(g.node) if isinstance(s, ast.Attribute) and s.attr in ("lookup", "lookup_reverse")]
         ctx.rep.touch(g)
         ctx.rep.check(bool(uses) and all(u.attr == table for u in uses), rule, f"{g.qualname}/table", f"uses self.{table}", f"{short.split('.')[1]} does not (only) use self.{table}: randomize/derandomize are not inverse to each other", where=g.where())
+
+
+def slice_zero(ctx) -> None:
+    rule = "C15.slice-zero"
+    from .common import negative_slice_rule
+
+    n = negative_slice_rule(ctx, rule, ("robotools/transform.py",))
+    if n == 0:
+        # the rule is exercised on every run by C11.slice-zero (Labware.condense_log has two such bounds)
+        ctx.rep.holds(rule, "transform.py", "no slice bound of the form -<expression> in the well transforms")
 
 
 def instance_state(ctx) -> None:
